@@ -27,6 +27,7 @@ func acceptorSelfTest() string {
 	ack := W("connection_ack", "", "")
 	initSubQ := Case{Proto: protoTWS, Msgs: []Msg{{K: "init"}, sub("1", q)}}
 	initSubS := Case{Proto: protoTWS, Msgs: []Msg{{K: "init"}, sub("1", s), {K: "complete", ID: "1"}}}
+	hookCase := Case{Proto: protoTWS, Hook: true, Msgs: []Msg{{K: "init"}, {K: "sub", ID: "1", X: &q, Refuse: true}, sub("1", q)}}
 	okQ := []event{RQ, R(0, ""), ack, RQ, R(1, "1"), RQ, X(evXGET, 1), X(evXS, 1), XE(1, 0), X(evXR, 1), W("next", "1", resultDoc(1, 0)), W("complete", "1", ""), X(evXP, 1), EOF}
 	cases := []tc{
 		{"clean query", initSubQ, okQ, ""},
@@ -55,6 +56,11 @@ func acceptorSelfTest() string {
 		{"accepted subscribe dropped", initSubQ, []event{RQ, R(0, ""), ack, RQ, R(1, "1"), RQ, EOF}, "no operation ever started"},
 		{"gws clean", Case{Proto: protoGWS, Msgs: []Msg{{K: "init"}, sub("1", q)}}, []event{RQ, R(0, ""), ack, RQ, R(1, "1"), RQ, X(evXS, 1), XE(1, 0), X(evXR, 1), W("data", "1", resultDoc(1, 0)), W("complete", "1", ""), X(evXP, 1), EOF}, ""},
 		{"gws transport-ws type", Case{Proto: protoGWS, Msgs: []Msg{{K: "init"}, sub("1", q)}}, []event{RQ, R(0, ""), ack, RQ, R(1, "1"), RQ, X(evXS, 1), XE(1, 0), X(evXR, 1), W("next", "1", resultDoc(1, 0)), W("complete", "1", ""), X(evXP, 1), EOF}, "not a server message"},
+		{"hook refusal, id re-used (clean)", hookCase, []event{RQ, R(0, ""), ack, RQ, R(1, "1"), W("error", "1", hookErrPayload), RQ, R(2, "1"), RQ, X(evXS, 2), XE(2, 0), X(evXR, 2), W("next", "1", resultDoc(2, 0)), W("complete", "1", ""), X(evXP, 2), EOF}, ""},
+		{"hook refusal leaves the id registered", hookCase, []event{RQ, R(0, ""), ack, RQ, R(1, "1"), W("error", "1", hookErrPayload), RQ, R(2, "1"), C(4409)}, "refused by the before-start hook), was refused"},
+		{"hook refusal unanswered", hookCase, []event{RQ, R(0, ""), ack, RQ, R(1, "1"), RQ, EOF}, "must be answered by exactly one error(1)"},
+		{"hook refusal answered twice", hookCase, []event{RQ, R(0, ""), ack, RQ, R(1, "1"), W("error", "1", hookErrPayload), W("error", "1", hookErrPayload), RQ, EOF}, "must be answered by exactly one error(1)"},
+		{"hook refusal closes", hookCase, []event{RQ, R(0, ""), ack, RQ, R(1, "1"), C(4409)}, "must be answered by error(1), but the server closed"},
 		{"panic", initSubQ, []event{RQ, R(0, ""), {K: evPANIC, M: -1, Raw: "boom"}}, "panicked"},
 	}
 	var fails []string
